@@ -23,7 +23,7 @@ SPEC = dict(
     assumptions=["packaging decides validity/equality of PEP 440 versions; canonical spelling is NOT demanded "
                  "(1.0.a0 is acceptable) - only the statement's clauses are asserted"],
     required=["lib_checks", "cli_pep440_lines", "file_occurrences_checked", "tags:alpha", "tags:final", "tags:post",
-              "tags:dev", "zero_padded_cases", "show_pep440_values_checked"],
+              "tags:dev", "zero_padded_cases", "show_pep440_values_checked", "both_placeholder_updates"],
     anchors=[("v2patterns", "_convert_to_pep440"), ("version", "to_pep440"), ("v2patterns", "normalize_pattern")],
 )
 
@@ -73,6 +73,8 @@ def cases(ctx):
         yield {"kind": "show", "seed": ctx.rng.getrandbits(48)}
     for _ in range(ctx.size(800, 20000)):
         yield {"kind": "file", "seed": ctx.rng.getrandbits(48)}
+    for _ in range(ctx.size(300, 6000)):
+        yield {"kind": "both", "seed": ctx.rng.getrandbits(48)}
 
 
 LONG_TAG = re.compile(r"alpha|beta|preview|final|pre|rev")
@@ -193,6 +195,69 @@ def run_show(ctx, case, R, mods, tdy):
         fake.destroy()
 
 
+BOTH_VPS = ["vMAJOR.MINOR.PATCH[-TAGNUM]", "MAJOR.MINOR.PATCH[PYTAGNUM]", "vYYYY.BUILD[-TAG]", "YYYY.0M.INC0", "vMAJOR.MINOR[.PATCH[-TAG]]",
+            "MAJOR.MINOR.PATCH", "YYYY.MM.DD[.TAGNUM]"]
+BOTH_LINES = ["Latest release: {version} (pip install pkg=={pep440_version}) .", "pkg=={pep440_version}  # git tag {version}",
+              "{version} -> {pep440_version};"]
+
+
+def run_both(ctx, case, R, mods, tdy):
+    """ONE file pattern that carries both placeholders: the line shows the version and, at the {pep440_version}
+    position, an equal PEP 440 version - before and after every update."""
+    v2v = mods["v2version"]
+    vp = R.choice(BOTH_VPS)
+    ast = ref.parse_pattern(vp)
+    names = list(ref.parts_in(ast))
+    _d, st0 = gen.gen_state(R, names)
+    rs = gen.reachable(ast, st0, tdy)
+    if rs is None or ref.n_full_parses(ast, rs[0]) != 1 or projects._week53(names, rs[1]):
+        raise harness.Skip("unusable-start")
+    cur, st = rs
+    try:
+        Version(cur)
+    except InvalidVersion:
+        raise harness.Skip("start-not-pep440")
+    raw = R.choice(BOTH_LINES)
+    norm = projects.normalize(mods, vp, raw, False)
+    old_line = v2v.format_version(v2v.parse_version_info(cur, vp), norm)   # setup: what bumpver itself writes
+    cfg = (f'[bumpver]\ncurrent_version = "{cur}"\nversion_pattern = "{vp}"\n\n[bumpver.file_patterns]\n'
+           f'"bumpver.toml" = [\'current_version = "{{version}}"\']\n"README.md" = [{projects.toml_str(raw)}]\n')
+    d = harness.new_project({"bumpver.toml": cfg, "README.md": f"# pkg\n\n{old_line}\n\nmore text\n"})
+    try:
+        for step in range(2):
+            fl, date, exp, why = updates.plan_update(R, vp, cur, st, tdy)
+            if exp is None:
+                raise harness.Skip("no-successful-update-planned")
+            res = harness.invoke(updates.update_args(fl, date), cwd=d)
+            a = res.record_value("New Version: ")
+            if res.exit_code != 0:
+                if a is not None or res.crash:
+                    ctx.violation("other:update_fails_with_both_placeholders_in_one_pattern", f"pattern {raw!r} (vp {vp!r}, "
+                                  f"current {cur!r}): exit {res.exit_code} {res.crash or res.errors()[-2:]}", case=case)
+                return
+            ctx.counters["both_placeholder_updates"] += 1
+            ctx.evaluated((vp, raw, "both", step))
+            line = harness.snapshot(d)["README.md"].decode().split("\n")[2]
+            pre, mid_, post = raw.partition("{version}")
+            want_shape = re.escape(raw).replace(re.escape("{version}"), "(?P<v>.+?)").replace(re.escape("{pep440_version}"), "(?P<p>.+?)")
+            m = re.fullmatch(want_shape, line)
+            try:
+                ok = m is not None and m.group("v") == a and Version(m.group("p")) == Version(a) and clause4(m.group("p")) is None
+            except InvalidVersion:
+                ok = False
+            if not ok:
+                ctx.violation(classify(vp, "pep440-occurrence-not-equal"), f"pattern {raw!r} (vp {vp!r}): after the update to "
+                              f"{a!r} the line reads {line!r}", case=case)
+                return
+            try:
+                Version(a)
+            except InvalidVersion:
+                return
+            cur, st = a, updates.new_state_from_text(vp, a, tdy)
+    finally:
+        harness.rm_dir(d)
+
+
 def run_case(ctx, case):
     mods = updates.bvmods()
     tdy = updates.today()
@@ -207,6 +272,8 @@ def run_case(ctx, case):
     R = random.Random(case["seed"])
     if case["kind"] == "show":
         return run_show(ctx, case, R, mods, tdy)
+    if case["kind"] == "both":
+        return run_both(ctx, case, R, mods, tdy)
     if case["kind"] == "lib":
         p = gen.gen_pattern(R, decorate=False, pep_bias=True)
         ast = ref.parse_pattern(p)
